@@ -43,10 +43,10 @@ def c12_1(R):
                     if kt:
                         a, bt, k = kt
                         detail = "key=(%s, %s%+d)" % (a.describe(), bt.describe(), k)
-                        if a.kind == "upvar" and a.root[1] == "addr" and not a.fields and bt.kind == "upvar" and bt.root[1] == "message" and bt.fields[-2:] == ["UtpMessage.header", "UtpHeader.connection_id"] and k == 0:
+                        if is_fn_param(b, a, 2) and not a.fields and is_fn_param(b, bt, 3) and bt.fields[-2:] == ["UtpMessage.header", "UtpHeader.connection_id"] and k == 0:  # on_recv(self, addr, message)
                             okr = True
                     mt = trace(b, t.args[1])
-                    if not (mt.kind == "upvar" and mt.root[1] == "message" and not mt.fields):
+                    if not (is_fn_param(b, mt, 3) and not mt.fields):
                         okr = False
                         detail += " msg=" + mt.describe()
                 if okr:
@@ -86,7 +86,7 @@ def c12_1(R):
                     miss = any(d.startswith("discr:") and "HashMap" in d and d.endswith("=None") for d in descs) or any("HashMap::get" in d and d.endswith("=None") for d in descs)
                     ty = any(d.endswith("=" + typ) for d in descs)
                     a1, a2 = trace(b, t.args[1]), trace(b, t.args[2])
-                    same = a1.kind == "upvar" and a1.root[1] == "addr" and a2.kind == "upvar" and a2.root[1] == "message" and not a1.fields and not a2.fields
+                    same = is_fn_param(b, a1, 2) and is_fn_param(b, a2, 3) and not a1.fields and not a2.fields
                     if miss and ty and same:
                         seen.add(typ)
                         R.ok("unknown-key-dispatch", "%s -> %s" % (typ, callee.split("::")[-1]), "only on lookup miss, with on_recv's own addr/message")
@@ -129,7 +129,7 @@ def c12_2(R):
                     okk = False
                     if kt:
                         a, bt, k = kt
-                        okk = a.kind == "param" and a.root[2] == "addr" and bt.kind == "param" and bt.root[2] == "msg" and bt.fields[-2:] == ["UtpMessage.header", "UtpHeader.connection_id"] and k == 0
+                        okk = is_fn_param(b, a, 2) and is_fn_param(b, bt, 3) and bt.fields[-2:] == ["UtpMessage.header", "UtpHeader.connection_id"] and k == 0  # on_maybe_connect_ack(self, addr, msg)
                     if okk:
                         R.ok("insert=>key-absent", fn, "inserts (addr, msg.header.connection_id): the key that just missed in on_recv")
                     else:
